@@ -74,3 +74,10 @@ func (r *RNG) Perm(n int) []int {
 	}
 	return p
 }
+
+// Shuffle permutes n items through swap (Fisher–Yates).
+func (r *RNG) Shuffle(n int, swap func(i, j int)) {
+	for i := n - 1; i > 0; i-- {
+		swap(i, r.Intn(i+1))
+	}
+}
